@@ -48,28 +48,54 @@ Proof.
   - discriminate.
   - intros [_ H]. discriminate.
 Qed.
-Lemma arg_conv_int raw args : arg_conv KMapInt raw = Some args <->
-  forallb valid_text raw = true /\ exists zs, parse_ints raw = Some zs /\ args = map show_int zs.
+Lemma arg_conv_num t raw args : arg_conv (KMapNum t) raw = Some args <->
+  forallb valid_text raw = true /\ exists zs, parse_nums t raw = Some zs /\ args = map show_int zs.
 Proof.
   cbn [arg_conv]. destruct (forallb valid_text raw).
-  - destruct (parse_ints raw) as [zs|]; split.
+  - destruct (parse_nums t raw) as [zs|]; split.
     + intros H. injection H as <-. eauto.
     + intros (_ & zs' & E & ->). injection E as <-. reflexivity.
     + discriminate.
     + intros (_ & zs' & E & _). discriminate.
   - split; [discriminate | intros [H _]; discriminate].
 Qed.
-Lemma parse_ints_spec : forall raw zs, parse_ints raw = Some zs <-> Forall2 (fun r z => parse_int r = Some z) raw zs.
+Lemma parse_nums_spec t : forall raw zs, parse_nums t raw = Some zs <-> Forall2 (fun r z => parse_num t r = Some z) raw zs.
 Proof.
-  induction raw as [|r raw IH]; intros zs; cbn [parse_ints].
+  induction raw as [|r raw IH]; intros zs; cbn [parse_nums].
   - split; [intros H; injection H as <-; constructor | intros H; inversion H; reflexivity].
-  - destruct (parse_int r) as [z|] eqn:Ez.
-    + destruct (parse_ints raw) as [zs'|] eqn:Ezs.
+  - destruct (parse_num t r) as [z|] eqn:Ez.
+    + destruct (parse_nums t raw) as [zs'|] eqn:Ezs.
       * split.
         -- intros H. injection H as <-. constructor; [exact Ez | apply IH; reflexivity].
         -- intros H. inversion H as [|r' z' raw' zs'' Hz Hzs]; subst. apply IH in Hzs. congruence.
       * split; [discriminate|]. intros H. inversion H as [|r' z' raw' zs'' Hz Hzs]; subst. apply IH in Hzs. discriminate.
     + split; [discriminate|]. intros H. inversion H as [|r' z' raw' zs'' Hz Hzs]; subst. congruence.
+Qed.
+Lemma arg_conv_int raw args : arg_conv KMapInt raw = Some args <->
+  forallb valid_text raw = true /\ exists zs, parse_ints raw = Some zs /\ args = map show_int zs.
+Proof. exact (arg_conv_num TInt raw args). Qed.
+Lemma parse_ints_spec : forall raw zs, parse_ints raw = Some zs <-> Forall2 (fun r z => parse_int r = Some z) raw zs.
+Proof. exact (parse_nums_spec TInt). Qed.
+
+(* the value delivered to a numeric parameter is in the range of its type *)
+Lemma parse_num_range t s z : parse_num t s = Some z ->
+  if nt_signed t then (- 2 ^ (nt_bits t - 1) <= z <= 2 ^ (nt_bits t - 1) - 1)%Z else (0 <= z <= 2 ^ nt_bits t - 1)%Z.
+Proof.
+  unfold parse_num.
+  destruct (match skip_ws s with
+            | [] => (false, skip_ws s)
+            | c :: t0 => if c =? 45 then (true, t0) else if c =? 43 then (false, t0) else (false, skip_ws s)
+            end) as [neg ds].
+  destruct (is_nil ds); [discriminate|]. destruct (negb (forallb dec_digit ds)); [discriminate|].
+  set (v := Z.of_N (dec_val ds)). assert (Hv : (0 <= v)%Z) by (unfold v; lia).
+  assert (Hp : (0 < 2 ^ nt_bits t)%Z) by (destruct t; reflexivity).
+  destruct (nt_signed t).
+  - destruct ((((if neg then - v else v) <? - 2 ^ (nt_bits t - 1)) || (2 ^ (nt_bits t - 1) - 1 <? (if neg then - v else v)))%Z) eqn:E;
+      [discriminate|]. intros H. injection H as <-. apply orb_false_iff in E. destruct E as [E1 E2].
+    apply Z.ltb_ge in E1. apply Z.ltb_ge in E2. lia.
+  - destruct (2 ^ nt_bits t - 1 <? v)%Z eqn:E; [discriminate|]. apply Z.ltb_ge in E.
+    intros H. injection H as <-. destruct neg; [|lia].
+    pose proof (Z.mod_pos_bound (2 ^ nt_bits t - v) (2 ^ nt_bits t) Hp). lia.
 Qed.
 
 (* every kind of handler has the same shape: context + method filter (map-style only), whole-string pattern match,
